@@ -109,6 +109,7 @@ type State struct {
 	LocksTouched []Term
 	OwnedClose   []Term
 	Universals   []universal
+	LockSnap     *State // state right after the first Lock() on this path
 }
 
 // universal is an assumed forall kept for later instantiation at new terms.
@@ -144,6 +145,7 @@ func (s *State) Clone() *State {
 		LocksTouched: append([]Term(nil), s.LocksTouched...),
 		OwnedClose:   s.OwnedClose,
 		Universals:   append([]universal(nil), s.Universals...),
+		LockSnap:     s.LockSnap,
 	}
 	for k, v := range s.Mem {
 		n.Mem[k] = v
